@@ -3,6 +3,7 @@
 //! A panic in the code under test is data (an event), never a harness failure.
 mod cli;
 mod debug;
+mod determ;
 mod exports;
 mod extmerge;
 mod imports;
@@ -12,6 +13,7 @@ mod opfile;
 mod parse;
 mod printer;
 mod paths;
+mod pipeline;
 mod project;
 mod render;
 mod tsread;
@@ -32,12 +34,14 @@ fn main() {
         "paths" => paths::run(rest),
         "cliproj" => cli::run(rest),
         "debug" => debug::run(rest),
+        "determ" => determ::run(rest),
         "exports" => exports::run(rest),
         "extmerge" => extmerge::run(rest),
         "imports" => imports::run(rest),
         "loader" => loader::run(rest),
         "opfile" => opfile::run(rest),
         "parse" => parse::run(rest),
+        "render" => parse::run_render(rest),
         "roundtrip" => printer::run_roundtrip(rest),
         "server" => printer::run_server(rest),
         "opfile-child" => opfile::run_child(rest),
